@@ -669,3 +669,187 @@ def run_rawfork_helper(params, timeout=10.0):
             return 'bad-output', None, (out.decode('utf-8', 'replace')[-300:] + ' | ' + err)
     finally:
         shutil.rmtree(d, ignore_errors=True)
+
+
+# ------------------------------------------------------------------------------------------------ real fork TREE
+class ForkTreeError(Exception):
+    """a process of the tree did not answer (crashed, hung): an observation about the run, reported by the caller"""
+
+
+class ForkTree:
+    """A tree of REAL os.fork() processes rooted in the calling process ('P'), driven step by step over pipes.
+
+    Every process of the tree is a fork of the caller (or of a fork of it, ...), so it inherits the caller's Python
+    objects as they were at the moment of ITS fork — metric objects, the MultiProcessValue closure with its open
+    MmapedDict handles — exactly what a pre-forking server's workers inherit.  The root coordinates: `call(name, x)`
+    makes process `name` evaluate `handler(x)` (in that process, on its inherited state) and waits for the answer;
+    `fork(parent, name)` makes `parent` fork; `exit(name)` makes `name` leave through os._exit (no library call) and
+    its parent reap it.  ONE process runs at any time, all others block reading their command pipe: an interleaving
+    of the processes' operations is fixed by the order of the calls — by pipes, never by sleeps (the timeouts below
+    are a guard against a crashed/hung process, they sequence nothing).  While a process other than the root runs,
+    the root is idle inside `call`, so "snapshot the directory, call, snapshot again" observes exactly what that one
+    process did.
+
+    `names`: every non-root name that may be forked (the pipes must exist before the first fork so that every
+    descendant inherits them).  A child never returns into the caller's code: it serves commands and os._exit()s."""
+
+    ROOT = 'P'
+
+    def __init__(self, names, handler, timeout=20.0):
+        self.handler = handler
+        self.timeout = timeout
+        self.root_pid = os.getpid()
+        self.pipes = {n: (os.pipe(), os.pipe()) for n in names}     # name -> ((cmd r, cmd w), (ack r, ack w))
+        self.pids = {self.ROOT: self.root_pid}
+        self.parent = {}
+        self.alive = [self.ROOT]        # in creation order
+        self._kids = {}                 # the root's own children: name -> pid
+
+    # -- framing: one JSON document per line, strictly request / answer
+    @staticmethod
+    def _send(fd, obj):
+        data = (json.dumps(obj) + '\n').encode('utf-8')
+        while data:
+            n = os.write(fd, data)
+            data = data[n:]
+
+    @staticmethod
+    def _recv(fd, timeout):
+        import select
+        buf = b''
+        while True:
+            r, _, _ = select.select([fd], [], [], timeout)
+            if not r:
+                return None
+            chunk = os.read(fd, 65536)
+            if not chunk:
+                return None
+            buf += chunk
+            if buf.endswith(b'\n'):
+                return json.loads(buf.decode('utf-8'))
+
+    def _serve(self, name):
+        """body of every non-root process; never returns"""
+        try:
+            kids = {}
+            while True:
+                cmd = self._recv(self.pipes[name][0][0], 90.0)
+                if cmd is None:
+                    os._exit(5)         # orphaned
+                op = cmd[0]
+                if op == 'call':
+                    try:
+                        rep = {'ok': self.handler(cmd[1])}
+                    except Exception as e:  # noqa
+                        rep = {'exc': type(e).__name__, 'msg': str(e)[:300]}
+                elif op == 'fork':
+                    pid = os.fork()
+                    if pid == 0:
+                        name = cmd[1]
+                        kids = {}
+                        continue
+                    kids[cmd[1]] = pid
+                    rep = {'ok': pid}
+                elif op == 'reap':
+                    _, st = os.waitpid(kids.pop(cmd[1]), 0)
+                    rep = {'ok': os.waitstatus_to_exitcode(st)}
+                elif op == 'exit':
+                    self._send(self.pipes[name][1][1], {'ok': 0})
+                    os._exit(0)
+                else:
+                    rep = {'exc': 'Protocol', 'msg': repr(cmd)[:100]}
+                self._send(self.pipes[name][1][1], rep)
+        except BaseException:  # noqa
+            pass
+        finally:
+            os._exit(3)
+
+    def _rpc(self, name, msg):
+        self._send(self.pipes[name][0][1], msg)
+        rep = self._recv(self.pipes[name][1][0], self.timeout)
+        if rep is None:
+            raise ForkTreeError('process %s (real pid %s) did not answer %r within %.0f s (crashed or hung)' % (
+                name, self.pids.get(name), msg[0], self.timeout))
+        return rep
+
+    # -- the root's API
+    def call(self, name, payload):
+        """-> {'ok': handler(payload)} | {'exc': class name, 'msg': text}, evaluated IN process `name`"""
+        if name == self.ROOT:
+            try:
+                return {'ok': self.handler(payload)}
+            except Exception as e:  # noqa
+                return {'exc': type(e).__name__, 'msg': str(e)[:300]}
+        return self._rpc(name, ['call', payload])
+
+    def fork(self, parent, name):
+        """`parent` forks a process called `name`; -> its real pid"""
+        import sys
+        if parent == self.ROOT:
+            sys.stdout.flush()
+            sys.stderr.flush()
+            pid = os.fork()
+            if pid == 0:
+                self._serve(name)
+            self._kids[name] = pid
+        else:
+            pid = self._rpc(parent, ['fork', name])['ok']
+        self.pids[name] = pid
+        self.parent[name] = parent
+        self.alive.append(name)
+        return pid
+
+    def ancestors(self, name):
+        out = []
+        while name in self.parent:
+            name = self.parent[name]
+            out.append(name)
+        return out
+
+    def exit(self, name):
+        """process `name` leaves through os._exit(0) and is reaped by its parent; -> exit code | None (parent gone)"""
+        self._rpc(name, ['exit'])
+        self.alive.remove(name)
+        par = self.parent[name]
+        if par == self.ROOT:
+            _, st = os.waitpid(self._kids.pop(name), 0)
+            return os.waitstatus_to_exitcode(st)
+        if par in self.alive:
+            return self._rpc(par, ['reap', name])['ok']
+        return None
+
+    def close(self):
+        """end every process still alive (descendants first), kill what does not answer, close the pipes"""
+        import signal
+        if os.getpid() != self.root_pid:
+            os._exit(3)
+        for name in reversed(list(self.alive)):
+            if name != self.ROOT:
+                try:
+                    self.exit(name)
+                except Exception:  # noqa
+                    pass
+        for name in list(self.alive):
+            if name != self.ROOT:
+                try:
+                    os.kill(self.pids[name], signal.SIGKILL)
+                except OSError:
+                    pass
+        for pid in self._kids.values():
+            try:
+                os.kill(pid, signal.SIGKILL)
+            except OSError:
+                pass
+            try:
+                os.waitpid(pid, 0)
+            except OSError:
+                pass
+        self._kids = {}
+        self.alive = [self.ROOT]
+        for (a, b), (c, d) in self.pipes.values():
+            for fd in (a, b, c, d):
+                try:
+                    os.close(fd)
+                except OSError:
+                    pass
+        self.pipes = {}
